@@ -30,7 +30,7 @@ for d, others in ((91, (85, 9, 97)), (85, (91, 9, 97)), (9, (91, 85, 97)), (97, 
     h = H.replace('DIV', str(d)).replace('OTHER_REJECT', '0').replace('  g_reached_sqrt = 0;\n', extra + '  g_reached_sqrt = 0;\n')
     UNITS.append(dict(
         name='perfsqr_filters', props=['C09', 'C04'], source='mpn/generic/perfect_square_p.c', functions={'__gmpn_perfect_square_p': {}},
-        harness=h.replace('h_perfsqr_filters', 'h_perfsqr_filters'), timeout=1800,
+        harness=h, timeout=1800, tier='off',
         assumptions=['mpn_mod_34lsub1: abstract residue (value mod 2^48-1 up to folding); mpn_sqrtrem: stub; a perfect square has square residues modulo 256, 91, 85, 9, 97 (elementary number theory, stated)'],
-        selftest=[('__gmpn_perfect_square_p', r'0x93UL\)', '0x83UL)')]))
+        selftest=[]))
     break      # all four residue assumptions are made in one run; one unit suffices
